@@ -30,6 +30,7 @@ struct Profile {
   int max_preempts = 6;
   int p_casfail = 15;
   bool guard_level = false;     // only op-level preemption
+  int p_prep_scn = 0;           // percent of OptimisticLock cases built around the PrepareRead fallback scenario
   int p_nest = 0;               // percent of (non-MCS) cases that contain nested compatible grants of one thread on one lock
   int max_threads_hi = 4;       // thorough tier may raise
 };
@@ -41,6 +42,8 @@ profile_of(const std::string &p)
   f.name = p;
   if (p == "C01") {
     f.w_juggle = 1;
+    f.p_prep_scn = 25;
+    f.w_prep = 3;
   } else if (p == "C02") {
     f.p_conv = 55;
     f.w_nested = 3;
@@ -115,6 +118,7 @@ profile_of(const std::string &p)
     f.cls_w[0] = 0;
     f.cls_w[2] = 0;
     f.w_prep = 9;
+    f.p_prep_scn = 40;
     f.w_x = 6;
     f.w_s = 2;
     f.w_six = 2;
@@ -473,6 +477,46 @@ gen_case(const Profile &f)
       c.threads[t].dep = pick(0, t - 1);
     }
   }
+  // PrepareRead fallback scenario: a writer holds X across the reader's optimistic attempts, releases, and a
+  // third thread competes for S/SIX while the reader is in its locking fallback (optionally with a spurious CAS failure)
+  bool prep_scn = false;
+  if (c.cls == kOpt && nthr >= 2 && chance(f.p_prep_scn)) {
+    prep_scn = true;
+    const int l = c.nlocks == 2 ? pick(0, 1) : 0;
+    Builder w{f, c.cls, c.nlocks, &fresh, {}, false};
+    const int jx = pick(0, 1);
+    w.emit(ACQ_X, l, jx);
+    const int nw = pick(1, 3);
+    for (int k = 0; k < nw; k++) w.emit(WRITE, jx);
+    if (chance(40)) w.emit(DWN, jx, pick(0, 1));
+    w.end(kX, jx);
+    if (chance(60)) {
+      w.x_sec(l);  // a second exclusive section: must not overlap a reader's shared grant
+    } else if (chance(50)) {
+      w.txn(l, false);
+    }
+    c.threads[0].ops = std::move(w.ops);
+    Builder r{f, c.cls, c.nlocks, &fresh, {}, false};
+    r.prep(l);
+    if (chance(40)) r.prep(l);
+    c.threads[1].ops = std::move(r.ops);
+    if (nthr >= 3) {
+      Builder q{f, c.cls, c.nlocks, &fresh, {}, false};
+      switch (weighted({4, 2, 2, 3})) {
+        case 0: q.s_sec(l); break;
+        case 1: q.six_sec(l); break;
+        case 2: q.x_sec(l); break;
+        default: q.prep(l); break;
+      }
+      if (chance(50)) q.txn(l, false);
+      c.threads[2].ops = std::move(q.ops);
+    }
+    // the writer is switched out while it holds X (right after ACQ_X or between its writes)
+    c.oppre.push_back({0, static_cast<uint32_t>(pick(1, nw + 1)), 0});
+    if (chance(60)) c.sched.casfails.push_back({1, static_cast<uint32_t>(pick(0, 2))});
+    if (nthr >= 3 && chance(50)) c.oppre.push_back({2, static_cast<uint32_t>(pick(0, 2)), pick(0, 1)});
+  }
+  (void)prep_scn;
   // schedule
   auto est_steps = [&](int t) { return 14 * static_cast<int>(c.threads[t].ops.size()) + 8; };
   const int style = f.guard_level ? (weighted({f.sw_none, 0, 0, f.sw_oplevel}))
